@@ -1876,7 +1876,40 @@ def lockstep_view(prog, t, depth=0):
     sv = seq_view(x)
     if sv is None or sv["adaptors"] or sv["drop_front"] or sv["drop_back"] or sv.get("filters") or sv.get("reversed"):
         return None
+    b = sv["base"]
+    while isinstance(b, tuple) and b and b[0] == "ok":
+        b = b[1]
+    if is_call(b, name="collect") and b[2] and collects_in_order(prog, b) and \
+            mentions(b[2][0], lambda u: is_call(u, name="map") or is_call(u, name="zip")):
+        # an intermediate vector built element by element (`let terms: Vec<_> = S.iter().map(g).collect()` — fallible or not —
+        # and traversed afterwards): one element per element of S, in the same order; compose
+        inner = lockstep_view(prog, b[2][0], depth + 1)
+        if inner is not None:
+            return inner[0], _ok_payload_of(inner[1], prog)
     return (sv["base"],), ITEM
+
+
+def collects_in_order(prog, t):
+    """a `collect()` call whose target keeps every element in traversal order (Vec, Result<Vec, _>, Option<Vec>) — a map or
+    set target sorts and merges, which is not an element-wise view"""
+    site = t[3] if len(t) > 3 else None
+    if not site:
+        return False
+    fk, bb = (site[2], site[-1]) if site[0] == "inl" else (site[0], site[-1])
+    g = prog.fns.get(fk)
+    if g is None or not g.has_body:
+        return False
+    try:
+        blk = g.blocks[bb]
+    except (KeyError, IndexError, TypeError):
+        return False
+    ci = callee_of(blk.term) or {}
+    ga = ci.get("gargs") or []
+    tgt = ga[-1] if ga else ""
+    for w in ("core::result::Result<", "core::option::Option<"):
+        if tgt.startswith(w):
+            tgt = tgt[len(w):]
+    return tgt.startswith("alloc::vec::Vec<")
 
 
 def mapping_of(prog, fn, v, t):
@@ -1911,6 +1944,11 @@ def mapping_of(prog, fn, v, t):
             return {"source": src2, "key": None, "val": body, "form": "zip-map"}
         if is_call(t, name="zip"):
             return None
+        if lv is not None and len(lv[0]) == 1 and lv[1] != ITEM:
+            body = _ok_payload_of(lv[1], prog)
+            if body[0] == "agg" and body[1] == "tuple" and len(body[4]) == 2:
+                return {"source": lv[0][0], "key": body[4][0][1], "val": body[4][1][1], "form": "map"}
+            return {"source": lv[0][0], "key": None, "val": body, "form": "map"}
     if is_call(t, name="map") and len(t[2]) == 2 and "Iterator" in t[1]:
         # `.map(f)` consumed lazily or collected: one value per element either way
         src, clo = t[2]
